@@ -87,6 +87,10 @@ def build(ctx):
             ua = {a: ua[a] for a in rng.sample(AAS, rng.randint(1, 19))}
         elif kind == 4:
             ua[rng.choice(['X', 'a', 'ALA'])] = 'A'          # extra keys are harmless
+            if rng.random() < 0.5:                           # ... unless a residue is mapped onto one of them
+                extra = rng.choice(['X', '-', 'b', 'ALA'])
+                ua[extra] = rng.choice([extra, 'A'])
+                ua[rng.choice(AAS)] = extra
         s = rng.choice(seqs)
         add(s, rng.choice([2, 5, 20, 7]), ua)
     for ua in ([('A', 'A')], 'ACDE', ['A'], (), [], ''):
